@@ -1,0 +1,153 @@
+//go:build verif
+
+// Contracts for package diam, read by /verif/engine (govc). Comment-only:
+// with the tag off this file is not compiled, with it on it declares nothing.
+//
+// Spec functions (be24, be32, hdr_wire, hdrlen, avplen, dlen, dpad, dbyte, pad4s ...)
+// are defined in /verif/contracts/prelude.spec from RFC 6733, not from this code.
+
+package diam
+
+//@ # ======================= uintconv.go =====================================
+//@ func uint24to32(b) (r)
+//@   property C01 C02 C03
+//@   pure
+//@   ensures [C02] be24: len(b) == 3 ==> r == be24(b, 0)
+//@   ensures range: r < 1<<24
+//@ end
+//@
+//@ func uint32to24(n) (r)
+//@   property C01 C02 C03
+//@   modifies
+//@   ensures shape: len(r) == 3 && fresh(r)
+//@   ensures [C02] be24: be24(r, 0) == n & 0xffffff
+//@ end
+//@
+//@ # ======================= header.go =======================================
+//@ func (*Header).DecodeFromBytes(h, data) (err)
+//@   property C01 C02 C03
+//@   requires h != nil
+//@   modifies h.*
+//@   ensures short: len(data) < 20 ==> err != nil
+//@   ensures total: len(data) >= 20 ==> err == nil
+//@   ensures [C02] rfc_layout: err == nil ==> hdr_wire(h, data)
+//@ end
+//@
+//@ func DecodeHeader(data) (p, err)
+//@   property C01 C02 C03
+//@   modifies
+//@   ensures short: len(data) < 20 ==> err != nil
+//@   ensures total: len(data) >= 20 ==> err == nil
+//@   ensures [C02] rfc_layout: err == nil ==> p != nil && fresh(p) && hdr_wire(p, data)
+//@ end
+//@
+//@ func (*Header).SerializeTo(h, b)
+//@   property C01 C02 C03
+//@   requires h != nil && len(b) >= 20
+//@   modifies b[0:20]
+//@   ensures [C02] rfc_layout: b[0] == h.Version && be24(b, 1) == h.MessageLength & 0xffffff && b[4] == h.CommandFlags &&
+//@           be24(b, 5) == h.CommandCode & 0xffffff && be32(b, 8) == h.ApplicationID && be32(b, 12) == h.HopByHopID && be32(b, 16) == h.EndToEndID
+//@ end
+//@
+//@ func (*Header).Serialize(h) (b)
+//@   property C01 C02 C03
+//@   requires h != nil
+//@   modifies
+//@   ensures [C02] rfc_layout: len(b) == 20 && fresh(b) && b[0] == h.Version && be24(b, 1) == h.MessageLength & 0xffffff && b[4] == h.CommandFlags &&
+//@           be24(b, 5) == h.CommandCode & 0xffffff && be32(b, 8) == h.ApplicationID && be32(b, 12) == h.HopByHopID && be32(b, 16) == h.EndToEndID
+//@ end
+//@
+//@ # ======================= avp.go ==========================================
+//@ func (*AVP).headerLen(a) (r)
+//@   property C01 C02 C03 C04
+//@   pure
+//@   requires a != nil
+//@   ensures [C02] rfc: r == hdrlen(a.Flags)
+//@ end
+//@
+//@ func (*AVP).Len(a) (r)
+//@   property C01 C02 C03 C04
+//@   pure
+//@   requires a != nil && a.Data != nil && valid(a.Data)
+//@   ensures [C02] rfc: r == avplen(a)
+//@ end
+//@
+//@ func NewAVP(code, flags, vendor, data) (a)
+//@   property C01 C02 C16
+//@   modifies
+//@   requires data != nil && valid(data)
+//@   ensures fields: a != nil && fresh(a) && a.Code == code && a.VendorID == vendor && a.Data == data
+//@   ensures [C02] vflag: a.Flags == (vendor > 0 ? flags | 0x80 : flags)
+//@   ensures [C02] length: flags & 0x80 == 0x80 || vendor == 0 ==> a.Length == hdrlen(a.Flags) + dlen(data)
+//@ end
+//@
+//@ func (*AVP).DecodeFromBytes(a, data, application, dictionary) (err)
+//@   property C01 C02 C03 C04 C06
+//@   requires a != nil && dictionary != nil
+//@   modifies a.*
+//@   ensures short: len(data) < 8 ==> err != nil
+//@   ensures [C02] hdr: err == nil ==> a.Code == be32(data, 0) && a.Flags == data[4] && a.Length == int(be24(data, 5))
+//@   ensures [C04] bounds: err == nil ==> hdrlen(a.Flags) <= a.Length && a.Length <= len(data)
+//@   ensures [C02] vendor: err == nil && a.Flags & 0x80 == 0x80 ==> a.VendorID == be32(data, 8)
+//@   ensures data_ok: err == nil ==> a.Data != nil && valid(a.Data)
+//@   ensures [C04] cursor: err == nil && !typeis(a.Data, *GroupedAVP) ==> avplen(a) == pad4s(a.Length)
+//@   ensures [C04] payload: err == nil ==> forall i int :: 0 <= i && i < a.Length - hdrlen(a.Flags) ==> dbyte(a.Data, i) == data[hdrlen(a.Flags) + i]
+//@ end
+//@
+//@ func DecodeAVP(data, application, dictionary) (a, err)
+//@   property C01 C02 C03 C04 C06
+//@   requires dictionary != nil
+//@   modifies
+//@   ensures nonnil: a != nil && fresh(a)
+//@   ensures short: len(data) < 8 ==> err != nil
+//@   ensures [C02] hdr: err == nil ==> a.Code == be32(data, 0) && a.Flags == data[4] && a.Length == int(be24(data, 5))
+//@   ensures [C04] bounds: err == nil ==> hdrlen(a.Flags) <= a.Length && a.Length <= len(data)
+//@   ensures [C02] vendor: err == nil && a.Flags & 0x80 == 0x80 ==> a.VendorID == be32(data, 8)
+//@   ensures data_ok: err == nil ==> a.Data != nil && valid(a.Data)
+//@   ensures [C04] cursor: err == nil && !typeis(a.Data, *GroupedAVP) ==> avplen(a) == pad4s(a.Length)
+//@   ensures [C04] payload: err == nil ==> forall i int :: 0 <= i && i < a.Length - hdrlen(a.Flags) ==> dbyte(a.Data, i) == data[hdrlen(a.Flags) + i]
+//@ end
+//@
+//@ # ======================= group.go ========================================
+//@ func DecodeGrouped(data, application, dictionary) (g, err)
+//@   property C01 C03 C04 C06
+//@   requires dictionary != nil
+//@   modifies
+//@   ensures nonnil: err == nil ==> g != nil && fresh(g)
+//@   ensures [C04] framing: err == nil ==> len(g.AVP) == framecount(data, pad4s(len(data)))
+//@   loop 0
+//@     invariant [C04] at_boundary: 0 <= n && n & 3 == 0 && boundary(b, n) && n <= pad4s(len(b))
+//@     invariant [C04] count: len(g.AVP) == framecount(b, n)
+//@     invariant g_fresh: g != nil && fresh(g) && sameslice(b, data)
+//@   end
+//@ end
+//@
+//@ func (*GroupedAVP).Padding(g) (r)
+//@   property C01 C02 C03
+//@   pure
+//@   implements datatype.Type.Padding
+//@ end
+//@ func (*GroupedAVP).Type(g) (r)
+//@   property C01 C02 C03
+//@   pure
+//@   implements datatype.Type.Type
+//@ end
+//@
+//@ # ======================= message.go ======================================
+//@ func (*Message).decodeAVPs(m, b) (err)
+//@   property C01 C03 C04 C06
+//@   requires m != nil && m.Header != nil
+//@   modifies m.AVP
+//@   ensures [C04] framing: err == nil ==> len(m.AVP) == len(old(m.AVP)) + framecount(b, pad4s(len(b)))
+//@   loop 0
+//@     invariant [C04] at_boundary: 0 <= n && n & 3 == 0 && boundary(b, n) && n <= pad4s(len(b))
+//@     invariant [C04] count: len(m.AVP) == len(old(m.AVP)) + framecount(b, n)
+//@   end
+//@ end
+//@
+//@ func (*Message).Dictionary(m) (d)
+//@   property C01 C03
+//@   pure
+//@   requires m != nil
+//@   ensures nonnil: d != nil
+//@ end
